@@ -677,6 +677,67 @@ def BaseIterate(port):
     return mido.ports.BaseInput.__iter__(port)
 
 
+def selfclosing_on_send_cases(ctx, hook):
+    """A device that closes its port from inside _send() when a write fails and then raises OSError - what SocketPort
+    does on a broken pipe.  Positions: the failing write is a caller's send (after k good ones) or one of the reset
+    messages of close() (autoreset).  Whatever the position: close() never raises, the device is released exactly
+    once, every reset burst is attempted at most once, afterwards send raises ValueError and what had been taken in
+    is still handed out."""
+    from mido.ports import reset_messages
+    nreset = len(list(reset_messages()))
+    n = 0
+    for ptype in ('plain', 'direct'):
+        for autoreset in (False, True):
+            for good in (0, 1, 3, nreset - 1, nreset, nreset + 2):
+                for via in ('send-then-close', 'close', 'with', 'del'):
+                    case = {'kind': 'selfclosing-on-send', 'ptype': ptype, 'autoreset': autoreset, 'good_sends': good, 'via': via}
+                    log = []
+                    cls = DirectPort if ptype == 'direct' else RecordingPort
+                    port = cls('sc', log=log, autoreset=autoreset, send_fail=good, send_fail_closes=True,
+                               dev=[dev_msg(1), dev_msg(2)], batch=2)
+                    raised = []
+                    try:
+                        port.poll()                      # takes both device messages in, hands out the first
+                        if via == 'send-then-close':
+                            for i in range(good + 1):
+                                try:
+                                    port.send(out_msg(i))
+                                except OSError:
+                                    raised.append(i)
+                                except ValueError:
+                                    raised.append(('closed', i))
+                        if via == 'with':
+                            with port:
+                                pass
+                        elif via == 'del':
+                            port.__del__()
+                        else:
+                            port.close()
+                        port.close()
+                        left = [tag_of(m) for m in port.iter_pending()]
+                        try:
+                            port.send(out_msg(99))
+                            after = 'accepted'
+                        except ValueError:
+                            after = 'ValueError'
+                        err = None
+                    except BaseException as exc:         # RecursionError included
+                        err, left, after = f'{type(exc).__name__}: {str(exc)[:80]}', None, None
+                    closes = sum(1 for e in log if e[1] == '_close')
+                    resets = [e for e in log if e[1] == '_send' and e[2].type == 'control_change']
+                    ctx.check('device released exactly once', err is None and closes == 1 and port.closed,
+                              f'selfclosing-send:release:{autoreset}', case, {'error': err, 'releases': closes, 'closed': port.closed})
+                    if err is None:
+                        ctx.check('reset messages once, before release', len(resets) <= (nreset if autoreset else 0)
+                                  and all(not e[3] for e in resets), f'selfclosing-send:resets:{autoreset}', case,
+                                  {'reset_sends': len(resets)})
+                        ctx.check('results == lifecycle model', left == [('d', 2)] and after == 'ValueError'
+                                  and (via != 'send-then-close' or raised == [good]), 'selfclosing-send:after', case,
+                                  {'left': repr(left), 'send_after_close': after, 'raised': repr(raised)})
+                    n += 1
+    return n
+
+
 def socket_lifecycle_cases(ctx, hook):
     """close() on a SocketPort: idempotent, afterwards send raises ValueError - also when the peer
     has already gone away politely (FIN) or rudely (reset)."""
@@ -685,15 +746,24 @@ def socket_lifecycle_cases(ctx, hook):
     import time
     from mido.sockets import PortServer, SocketPort, connect
     n = 0
-    for peer in ('alive', 'closed', 'reset', 'reset-noticed-by-writing'):
-        for via in ('close', 'with', 'del'):
-            case = {'kind': 'socket-lifecycle', 'peer': peer, 'via': via}
+    for peer, via, autoreset in [(p, v, a) for a in (False, True)
+                                 for p in ('alive', 'closed', 'reset', 'reset-noticed-by-writing')
+                                 for v in ('close', 'with', 'del') + (('iterate',) if p == 'closed' else ())]:
+        if True:
+            case = {'kind': 'socket-lifecycle', 'peer': peer, 'via': via, 'autoreset': autoreset}
             server = client = port = None
             hook.arm({}, None, None)
             try:
                 server = PortServer('127.0.0.1', 0)
                 client = connect('127.0.0.1', server._socket.getsockname()[1])
                 port = server.accept()
+                if autoreset:
+                    # autoreset on a socket port (an attribute of every output port): the reset burst of close() goes to a
+                    # peer that may be gone - the port then learns about that from its own failing writes, inside close()
+                    port.autoreset = True
+                releases = []
+                real_close = port._close
+                port._close = lambda: (releases.append(1), real_close())[1]
                 client.send(out_msg(1))
                 if peer == 'closed':
                     client.close()
@@ -702,12 +772,11 @@ def socket_lifecycle_cases(ctx, hook):
                     client._socket.setsockopt(socket.SOL_SOCKET, socket.SO_LINGER, struct.pack('ii', 1, 0))
                     client.close()          # unread data + linger 0: the kernel sends a reset
                 time.sleep(0.02)
+                if autoreset and peer == 'alive':
+                    list(port.iter_pending())       # nothing unread at close: the peer sees an orderly end, not a reset
                 if peer == 'reset-noticed-by-writing':
                     # the port learns about the disconnect from failing writes (broken pipe), not from a read;
                     # it closes itself - once - and from then on behaves like any closed port
-                    releases = []
-                    real_close = port._close
-                    port._close = lambda: (releases.append(1), real_close())[1]
                     for i in range(3):
                         try:
                             port.send(out_msg(10 + i))
@@ -728,6 +797,11 @@ def socket_lifecycle_cases(ctx, hook):
                 try:
                     if via == 'close':
                         port.close()
+                    elif via == 'iterate':
+                        # the port notices the disconnect by reading: what arrived is handed out, then iteration ends
+                        got = [tag_of(m) for m in port]
+                        ctx.check('results == lifecycle model', got == [('o', 1)] and port.closed, 'socket:iterate-to-disconnect', case,
+                                  {'got': repr(got), 'closed': port.closed})
                     elif via == 'with':
                         with port:
                             pass
@@ -740,9 +814,21 @@ def socket_lifecycle_cases(ctx, hook):
                 except Exception as exc:
                     ok, why = False, f'{type(exc).__name__}: {exc}'
                 ctx.check('device released exactly once', ok and port.closed and port._socket.fileno() == -1
-                          and (peer != 'reset-noticed-by-writing' or len(releases) == 1),
+                          and len(releases) == 1,
                           f'socket:close-failed:{peer}', case, {'error': why, 'closed': port.closed,
-                                                                'releases': len(releases) if peer == 'reset-noticed-by-writing' else None})
+                                                                'releases': len(releases)})
+                if autoreset and peer == 'alive' and ok:
+                    # the peer is still there: it gets the earlier traffic and then the reset burst, once
+                    got = []
+                    for _ in range(200):
+                        got.extend(client.iter_pending())
+                        if client.closed:
+                            break
+                        time.sleep(0.002)
+                    from mido.ports import reset_messages
+                    want = list(reset_messages())
+                    ctx.check('reset messages once, before release', got[-len(want):] == want and len(got) == len(want),
+                              'socket:autoreset-burst', case, {'received': len(got), 'want': len(want)})
                 try:
                     port.send(out_msg(3))
                     ctx.check('results == lifecycle model', False, 'socket:send-after-close', case, None)
@@ -1439,6 +1525,10 @@ def run(ctx):
             ctx.nontrivial(None, k)
             ctx.extra('echo_blocking_cases', k)
             n += k
+            k = selfclosing_on_send_cases(ctx, hook)
+            ctx.nontrivial(None, k)
+            ctx.extra('selfclosing_on_send_cases', k)
+            n += k
         if ctx.shard == 6 % ctx.nshards:
             k = silent_member_cases(ctx, hook)
             ctx.nontrivial(None, k)
@@ -1478,6 +1568,8 @@ def replay(ctx, case):
             socket_lifecycle_cases(ctx, hook)
         elif k == 'multi-selfclose':
             multiport_selfclosing_member(ctx, hook)
+        elif k == 'selfclosing-on-send':
+            selfclosing_on_send_cases(ctx, hook)
         elif k == 'echo-blocking':
             echo_blocking_cases(ctx, hook)
         elif k == 'portserver-close':
